@@ -302,7 +302,7 @@ def run_unit(u, registry, outroot):
     checks = [c for c in DEFAULT_CHECKS if c not in u.no_flags]
     base = ['cbmc', b] + checks + list(u.flags)
     if u.kind == 'bounded' and u.unwind is not None:
-        base += ['--unwind', str(u.unwind), '--unwinding-assertions']
+        base += ['--unwind', str(u.unwind)] + (['--no-unwinding-assertions'] if u.partial else ['--unwinding-assertions'])
     if unwound:
         base += ['--unwind', str(u.fallback_unwind), '--unwinding-assertions']
     runs = []
